@@ -332,6 +332,20 @@ theorem equalsFields_insertField {k : String} {v v' : Value} (hv : Value.equals 
     · simp [Value.equalsFields, hv, hw, hr]
     · simp [Value.equalsFields, hw, equalsFields_insertField hv as bs hr]
 
+theorem equalsFields_insertFieldFirst {k : String} {v v' : Value} (hv : Value.equals v v' = true) :
+    ∀ (a b : List (String × Value)), Value.equalsFields a b = true →
+      Value.equalsFields (insertFieldFirst (k, v) a) (insertFieldFirst (k, v') b) = true
+  | [], [], _ => by simp [insertFieldFirst, Value.equalsFields, hv]
+  | [], _ :: _, h => by simp [Value.equalsFields] at h
+  | _ :: _, [], h => by simp [Value.equalsFields] at h
+  | (x, w) :: as, (x', w') :: bs, h => by
+    simp only [Value.equalsFields, Bool.and_eq_true, beq_iff_eq] at h
+    obtain ⟨⟨rfl, hw⟩, hr⟩ := h
+    simp only [insertFieldFirst]
+    split
+    · simp [Value.equalsFields, hw, equalsFields_insertFieldFirst hv as bs hr]
+    · simp [Value.equalsFields, hv, hw, hr]
+
 theorem equalsFields_sort : ∀ (a b : List (String × Value)), Value.equalsFields a b = true →
     Value.equalsFields (FieldList.sort a) (FieldList.sort b) = true
   | [], [], _ => by simp [FieldList.sort, Value.equalsFields]
@@ -342,7 +356,7 @@ theorem equalsFields_sort : ∀ (a b : List (String × Value)), Value.equalsFiel
     obtain ⟨⟨rfl, hw⟩, hr⟩ := h
     have ih := equalsFields_sort as bs hr
     simp only [FieldList.sort, List.foldr_cons] at ih ⊢
-    exact equalsFields_insertField hw _ _ ih
+    exact equalsFields_insertFieldFirst hw _ _ ih
 
 theorem listItemToPE_congr (s : Schema) {t t' : ListT} (h : ListT.equals t t' = true) (v : Value) :
     ResRel (fun pe pe' => PE.equals pe pe' = true) (listItemToPE s t v) (listItemToPE s t' v) := by
